@@ -35,19 +35,21 @@ def geometry(rng):
 class FileOracle:
     """independent model of what the backing file must look like"""
 
-    def __init__(self, est, rate, m, k):
+    def __init__(self, est, rate, m, k, hf=None):
         self.est, self.rate32, self.m, self.k = est, refimpl.f32(rate), m, k
+        # the strategy the filter was GIVEN (None: the documented default, recomputed independently)
+        self.hashes = (lambda key, depth: refimpl.fnv_chain(gen.to_bytes(key), depth)) if hf is None else hf
         self.model = refimpl.BloomModel(m, k)
         self.completed = 0
         self.blen = (m + 7) // 8
 
     def bits_of_key(self, key):
         mdl = refimpl.BloomModel(self.m, self.k)
-        mdl.add(refimpl.fnv_chain(gen.to_bytes(key), self.k))
+        mdl.add(self.hashes(key, self.k))
         return mdl.cells
 
     def complete(self, key):
-        self.model.add(refimpl.fnv_chain(gen.to_bytes(key), self.k))
+        self.model.add(self.hashes(key, self.k))
         self.completed += 1
 
     def expected_file(self):
@@ -137,9 +139,13 @@ def wl_snapshots(ctx, rng, case):
         form = rng.choice(["abs", "rel_same_dir", "rel_other_dir"])
         os.chdir(d1 if form == "rel_same_dir" else (sc.other if form == "rel_other_dir" else cwd0))
         given = path if form == "abs" else os.path.relpath(path, os.getcwd())
-        f = P.BloomFilterOnDisk(given, est, rate)
+        # a third of the histories run with a supplied hash strategy (re-supplied at every reopen)
+        hname, hf = gen.pick_hash(rng, keys) if rng.random() < 0.35 else ("library_default", None)
+        case.desc["hash"] = hname
+        ctx.observe("hash_strategies", hname)
+        f = P.BloomFilterOnDisk(given, est, rate, **bl.kw_hash(hf))
         case.op("create", form)
-        orc = FileOracle(est, rate, m, k)
+        orc = FileOracle(est, rate, m, k, hf)
         snap = Snapshotter(ctx, path, orc)
         snap.boundary("after creation")
         added = []
@@ -161,7 +167,7 @@ def wl_snapshots(ctx, rng, case):
                 # the recorded count must not include it, now or after the next add / export / close (its bits may be there).
                 key = rng.choice(keys)
                 j = rng.randint(0, k - 1)
-                short = refimpl.fnv_chain(gen.to_bytes(key), j)
+                short = orc.hashes(key, k)[:j]
                 case.op("refused add_alt", key, j)
                 snap.inflight, snap.label = None, "refused add_alt"
                 try:
@@ -219,7 +225,7 @@ def wl_snapshots(ctx, rng, case):
                 form = rng.choice(["abs_other_cwd", "abs_same_cwd", "rel_other_cwd", "rel_same_cwd"])
                 os.chdir(d1 if form.endswith("same_cwd") else sc.other)
                 given = path if form.startswith("abs") else os.path.relpath(path, os.getcwd())
-                f = P.BloomFilterOnDisk(given)
+                f = P.BloomFilterOnDisk(given, **bl.kw_hash(hf))
                 os.chdir(rng.choice([cwd0, sc.other, d1]))
                 ctx.check(f.elements_added == orc.completed, f"reopened filter ({form}) reports another element count", got=f.elements_added, want=orc.completed)
                 for kk in added:
